@@ -1,18 +1,23 @@
 """C19 - mutation and modification requests hit exactly the residues they name.
 
-spec/MutMod.tla        ParseOp / Format (law: Parse(Format(t)) = t); Matches (all given parts; nter/cter = protein residue
-                       with a single neighbour of higher/lower number, chain still required); Marks, Unmatched, IsError
-spec/Trace_MutMod.tla  TLC judges recorded calls of parse_residue_spec and AnnotateMutMod.run_system
+spec/MutMod.tla        ParseOp / Format (law: Parse(Format(t)) = t); MatchesS (all given parts; nter/cter = protein residue
+                       with a single neighbour of higher/lower number, chain still required); MarksS, UnmatchedS, JudgeMarks;
+                       CliMods (what the command-line options amount to), JudgeCli, JudgeItp
+spec/Repair.tla        JudgeRepairX: after RepairGraph the marked residue has exactly the atoms of the requested block + modifications
+spec/Trace_MutMod.tla  TLC judges recorded calls of parse_residue_spec, AnnotateMutMod.run_system and real bin/martinize2 runs
 
-Exhaustive: all specification strings up to length 5 over {A, 4, -, #} (+ longer structured ones) into the real parser;
-all systems of <= 2 molecules x <= 3 residues over a residue pool (chains, names ending in digits, gaps, insertion codes,
-star/path residue graphs, a non-protein molecule) x request lists of <= 2 from a pool, every order."""
+Library level: all specification strings up to length 5 over {A, 4, -, #} (+ longer structured ones) into the real parser;
+systems of <= 2 molecules x <= 3 residues over a residue pool (chains incl. the empty chain, names ending in digits, gaps,
+insertion codes, star/path residue graphs, a non-protein molecule) x request lists of 0-3 from a pool (repeated, overlapping,
+same residue twice), every order.  The TEXT of each request goes to TLC, which parses it itself.
+Command line (harness/c19_cli.py): real bin/martinize2 runs in forked children on multi-chain structures, structures with
+insertion codes and water molecules, with -mutate / -modify / -nter / -cter / -nt in every documented form."""
 import itertools
 import logging
 import multiprocessing as mp
 import random
 
-from . import common, tlc
+from . import c04, common, tlc
 
 PID = 'C19'
 NOCHAIN = ['?nochain']
@@ -52,6 +57,8 @@ POOL = [
     {'chain': 'B', 'resname': 'ALA', 'resid': 1, 'icode': '', 'protein': True},
     {'chain': 'B', 'resname': 'PO4', 'resid': 7, 'icode': '', 'protein': False},
     {'chain': 'A', 'resname': 'LIG', 'resid': 9, 'icode': '', 'protein': False},
+    {'chain': '', 'resname': 'ALA', 'resid': 2, 'icode': '', 'protein': True},
+    {'chain': 'B', 'resname': 'GLY', 'resid': 4, 'icode': 'B', 'protein': True},
 ]
 REQ_POOL = [
     ('A-ALA1', 'mutation', 'GLY', True), ('ALA', 'mutation', 'LYS', True), ('A-GLY4', 'modification', 'M1', True),
@@ -59,7 +66,12 @@ REQ_POOL = [
     ('PO4#7', 'modification', 'M3', True), ('A-ALA7', 'mutation', 'ALA', True), ('B-', 'modification', 'M4', True),
     ('2', 'mutation', 'SER', True), ('A-ALA1', 'modification', 'UNKNOWNMOD', False), ('GLY', 'mutation', 'none', True),
     ('C-ALA', 'mutation', 'UNKNOWNRES', False), ('A-cter', 'modification', 'none', True),
+    ('-ALA', 'mutation', 'SER', True), ('GLY4', 'mutation', 'ALA', True), ('A-ALA1', 'mutation', 'GLY', True), ('4', 'modification', 'M2', True),
+    ('B-GLY4', 'mutation', 'LYS', True), ('A-', 'mutation', 'SER', True), ('ALA1', 'modification', 'M1', True), ('-', 'modification', 'M3', True),
 ]
+RUN_FIELDS = ('kind', 'system', 'reqs', 'err', 'reported', 'mods', 'muts')
+CLI_FIELDS = ('kind', 'mods', 'muts', 'nt', 'knownBlocks', 'knownMods', 'system', 'marksMod', 'marksMut', 'reported', 'outcome')
+ITP_FIELDS = ('kind', 'mols', 'itps', 'cg')
 
 
 def build_system(spec_system, rng):
@@ -78,7 +90,7 @@ def build_system(spec_system, rng):
         first = {}
         for i, r in enumerate(m['res'], 1):
             for a in range(rng.randint(1, 2)):
-                mol.add_node(key, chain=r['chain'], resname=r['resname'], resid=r['resid'], insertion_code=r['icode'],
+                mol.add_node(key, chain=''.join(r['chain']), resname=''.join(r['resname']), resid=r['resid'], insertion_code=r['icode'],
                              atomname='%s%d' % ('CA' if a == 0 else 'CB', a), residx=i)
                 first.setdefault(i, key)
                 key += 1
@@ -86,19 +98,6 @@ def build_system(spec_system, rng):
             mol.add_edge(first[a], first[b])
         system.add_molecule(mol)
     return system
-
-
-def parse_req(s):
-    """Abstract request parts from the specification string (independent of the code's parser: pool strings are simple)."""
-    chain, rest = ('', s)
-    if '-' in s:
-        chain, rest = s.split('-', 1)
-    if '#' in rest:
-        name, num = rest.split('#')
-    else:
-        name = rest.rstrip('0123456789')
-        num = rest[len(name):]
-    return chain, name, int(num) if num else -1
 
 
 class _Capture(logging.Handler):
@@ -133,20 +132,19 @@ def run_real(spec_system, reqs, rng):
         logger.setLevel(old)
     reported = []
     for rec in cap.records:
-        args = getattr(rec.msg, 'args', ())
-        if len(args) >= 3:
-            hits = [i for i, r in enumerate(reqs, 1) if r[2] == args[2] and r[1] == args[1]]
-        else:       # older message shape: (specification, target)
-            hits = [i for i, r in enumerate(reqs, 1) if len(args) == 2 and r[2] == args[1]]
-        reported += hits[:1] if hits else [0]
+        args = [str(x) for x in getattr(rec.msg, 'args', ())]
+        if str(getattr(rec.msg, 'fmt', rec.msg)).startswith('Residue specified by') and len(args) >= 3:
+            reported.append([list(args[0]), args[1], list(args[2])])
+        else:
+            reported.append([[], '?', []])          # a warning that names no request
     out_mods, out_muts = [], []
     for mol, m in zip(system.molecules, spec_system):
         mm, mu = [], []
         for i in range(1, len(m['res']) + 1):
             vals_mod = {tuple(d.get('modification', [])) for _, d in mol.nodes(data=True) if d['residx'] == i}
             vals_mut = {tuple(d.get('mutation', [])) for _, d in mol.nodes(data=True) if d['residx'] == i}
-            mm.append(list(vals_mod.pop()) if len(vals_mod) == 1 else ['!'])
-            mu.append(list(vals_mut.pop()) if len(vals_mut) == 1 else ['!'])
+            mm.append([list(x) for x in vals_mod.pop()] if len(vals_mod) == 1 else [['!']])
+            mu.append([list(x) for x in vals_mut.pop()] if len(vals_mut) == 1 else [['!']])
         out_mods.append(mm)
         out_muts.append(mu)
     return err, reported, out_mods, out_muts, crash
@@ -156,9 +154,7 @@ def systems(tier, rng):
     shapes = []
     for n in (1, 2, 3):
         for idx in itertools.permutations(range(len(POOL)), n) if n < 3 else itertools.islice(itertools.permutations(range(len(POOL)), 3), 0, None, 4):
-            res = [POOL[i] for i in idx]
-            if len({(r['chain'], r['resname'], r['resid'], r['icode']) for r in res}) < n:
-                continue
+            res = [dict(POOL[i], chain=list(POOL[i]['chain']), resname=list(POOL[i]['resname'])) for i in idx]
             if n == 1:
                 shapes.append({'res': res, 'edges': []})
             elif n == 2:
@@ -173,85 +169,379 @@ def systems(tier, rng):
 
 
 def _run_chunk(args):
+    """Library-level cases: run the real AnnotateMutMod; the text of every request is shipped to TLC unparsed."""
     cases, seed = args
     rng = random.Random(seed)
     out = []
     for spec_system, reqs in cases:
         err, reported, mods, muts, crash = run_real(spec_system, reqs, rng)
-        areqs = []
-        for s, kind, target, known in reqs:
-            c, n, r = parse_req(s)
-            areqs.append({'chain': c, 'resname': n, 'resid': r, 'target': target, 'known': known, 'kind': kind})
-        # order of processing: modifications first, then mutations (marks are per kind, so only the per-kind order matters)
+        # order of processing: modifications first, then mutations
+        ordered = [r for r in reqs if r[1] == 'modification'] + [r for r in reqs if r[1] == 'mutation']
+        areqs = [{'spec': list(s), 'target': list(target), 'kind': kind, 'known': known} for s, kind, target, known in ordered]
         out.append({'kind': 'run', 'system': spec_system, 'reqs': areqs, 'err': err, 'reported': reported, 'mods': mods, 'muts': muts,
-                    'specs': [r[0] for r in reqs], 'crash': crash})
+                    'specs': ['%s:%s' % (r[0], r[2]) for r in reqs], 'crash': crash})
     return out
 
 
-def _judge(shard):
+def _slim(e):
+    if e['kind'] == 'run':
+        return {k: e[k] for k in RUN_FIELDS}
+    if e['kind'] == 'cli':
+        return {k: e[k] for k in CLI_FIELDS}
+    if e['kind'] == 'itp':
+        return {k: e[k] for k in ITP_FIELDS}
+    return {k: e[k] for k in e if k not in ('specs', 'crash')}
+
+
+def judge_batch(events):
+    import shutil
     work = tlc.scratch('c19_')
-    tf = tlc.write_json(work, 'trace.json', [{k: e[k] for k in e if k not in ('specs', 'crash')} for e in shard])
-    res = tlc.run('Trace_MutMod', 'SPECIFICATION Spec\n', dump=True, env={'TRACE_FILE': tf}, workdir=work, workers=1, timeout=3000)
-    return res.distinct, res.generated, {st['tid']: st['verdict'] for st in res.states() if st['verdict'] != 'pending'}
+    try:
+        tf = tlc.write_json(work, 'trace.json', [_slim(e) for e in events])
+        res = tlc.run('Trace_MutMod', 'SPECIFICATION Spec\n', dump=True, env={'TRACE_FILE': tf}, workdir=work, workers=1, timeout=3000)
+        return res.distinct, res.generated, {st['tid']: (st['verdict'], st['note']) for st in res.states() if st['verdict'] != 'pending'}
+    finally:
+        shutil.rmtree(work, ignore_errors=True)
 
 
-def judge_events(events, ev, vd):
-    shards = common.chunks(events, tlc.NCPU)
-    with mp.Pool(len(shards)) as pool:
-        outs = pool.map(_judge, shards)
-    for shard, (d, g, verdicts) in zip(shards, outs):
-        ev.states += d
-        ev.transitions += g
-        for i, e in enumerate(shard, 1):
-            ev.traces += 1
-            ev.evaluations += 1
-            v = verdicts.get(i, 'no-verdict')
+def _describe(e):
+    if e['kind'] == 'run':
+        return 'run %s' % e.get('specs')
+    if e['kind'] in ('cli', 'itp'):
+        return '%s martinize2 %s' % (e['kind'], e.get('argv'))
+    if e['kind'] in ('repairx', 'molecule', 'unknown'):
+        return 'after repair: %s in martinize2 %s' % (e.get('where'), ((e.get('info') or {}).get('case') or {}).get('requests'))
+    return '%s %s' % (e['kind'], ''.join(e.get('s', [])))
+
+
+def judge_into(events, sm):
+    """Judge events of any kind (MutMod judge for parse / law / run / cli / itp, Repair judge for the after-repair events)."""
+    mm = [e for e in events if e['kind'] in ('parse', 'law', 'run', 'cli', 'itp')]
+    rp = [e for e in events if e['kind'] in ('repairx', 'molecule', 'unknown')]
+    for e in events:
+        if e['kind'] == 'inconclusive':
+            sm.inconclusive += 1
+            if e.get('harness_error'):
+                sm.harness_errors.append(e['what'])
+            elif len(sm.inconclusive_examples) < 8:
+                sm.inconclusive_examples.append(e['what'])
+    sm.events += len(mm) + len(rp)
+    for batch, judge in ((mm, judge_batch), (rp, c04.judge_batch)):
+        direct = [e for e in batch if e.get('problems')]
+        batch = [e for e in batch if not e.get('problems')]
+        for e in direct:
+            sm.traces += 1
+            sm.violation('repair-failed', e, '%s: %s' % (_describe(e), '; '.join(e['problems'])))
+        if not batch:
+            continue
+        d, g, verdicts = judge(batch)
+        sm.states += d
+        sm.transitions += g
+        for i, e in enumerate(batch, 1):
+            sm.traces += 1
+            v, note = verdicts.get(i, ('no-verdict', '-'))
             if e.get('crash'):
                 v = 'AnnotateMutMod raised ' + e['crash']
-            if e['kind'] == 'run' and len(e['reqs']) >= 1 and sum(len(m['res']) for m in e['system']) >= 2:
-                ev.nontrivial_case([e['system'], e['specs']])
-            elif e['kind'] == 'parse' and ('-' in e['s'] or '#' in e['s']):
-                ev.nontrivial_case(['parse', e['s']])
-            if v != 'ok':
-                vd.violation('trace-rejected', e, '%s %s: %s' % (e['kind'], e.get('specs', ''.join(e.get('s', []))), v))
+            fam = e['kind'] if e['kind'] in ('parse', 'law', 'run') else 'cli:' + e['kind']
+            sm.fam[fam] = sm.fam.get(fam, 0) + 1
+            if e['kind'] == 'run':
+                if len(e['reqs']) >= 1 and sum(len(m['res']) for m in e['system']) >= 2:
+                    sm.nontrivial.add(c04._nt_hash([e['system'], e['specs']]))
+                for letter in note:
+                    sm.notes['run:' + letter] = sm.notes.get('run:' + letter, 0) + 1
+                if len(e['reqs']) == 2 and not e['err']:
+                    sm.samples.setdefault('run', {'kind': 'recorded AnnotateMutMod run judged by TLC', 'event': e})
+            elif e['kind'] == 'parse':
+                if '-' in e['s'] or '#' in e['s']:
+                    sm.nontrivial.add(c04._nt_hash(['parse', e['s']]))
+            elif e['kind'] == 'cli':
+                sm.nontrivial.add(c04._nt_hash(['cli', e['argv'], e['info']['case'].get('pdb')]))
+                for letter in note:
+                    sm.notes['cli:' + letter] = sm.notes.get('cli:' + letter, 0) + 1
+                sm.notes['cli-outcome:' + e['outcome']] = sm.notes.get('cli-outcome:' + e['outcome'], 0) + 1
+                if 'm' in note and e['outcome'] == 'done':
+                    sm.samples.setdefault('cli', {'kind': 'real martinize2 run judged by TLC', 'argv': e['argv'], 'pdb': e['info']['case'].get('pdb'),
+                                                  'marks (mutation)': [[[''.join(t) for t in r] for r in m] for m in e['marksMut']],
+                                                  'reported': e['reports'], 'exercised': note})
+            elif e['kind'] == 'itp' and v == 'ok':
+                sm.notes['itp:mutated-residues'] = sm.notes.get('itp:mutated-residues', 0) + sum(1 for m in e['mols'] for r in m if r['muts'])
+            elif e['kind'] == 'repairx' and v == 'ok' and (e['muts'] or e['mods']):
+                from . import c04_real
+                fx = c04_real.effects(e)
+                for k in fx:
+                    sm.notes['repair:' + k] = sm.notes.get('repair:' + k, 0) + 1
+                if e['muts']:
+                    sm.notes['repair:mutated'] = sm.notes.get('repair:mutated', 0) + 1
+                    if len(e['muts']) >= 2:
+                        sm.notes['repair:mutated-twice-same-target'] = sm.notes.get('repair:mutated-twice-same-target', 0) + 1
+                if [m for m in e['mods'] if m not in ('none', 'N-ter', 'C-ter')]:
+                    sm.notes['repair:modified'] = sm.notes.get('repair:modified', 0) + 1
+            if v.startswith('unjudged:'):
+                sm.unjudged[v] = sm.unjudged.get(v, 0) + 1
+                if e['kind'] == 'cli' and len(sm.inconclusive_examples) < 8:
+                    sm.inconclusive_examples.append([v, e['argv'], e.get('exc'), e.get('log', '')[-300:]])
+            elif v != 'ok':
+                e['verdict'] = v
+                sm.violation('trace-rejected', e, '%s: %s' % (_describe(e), v))
+
+
+def _cli_task(conn, case):
+    from . import c19_cli
+    try:
+        conn.send(c19_cli.run_case(case))
+    except Exception:      # noqa
+        import traceback
+        conn.send([{'kind': 'inconclusive', 'what': ['harness error in a command-line case', repr(case)[:300], traceback.format_exc()[-600:]], 'harness_error': True}])
+    conn.close()
+
+
+def _worker(tasks, results, limit, wid):
+    import queue
+    import time
+    sm = c04.Summary()
+    buf = []
+    try:
+        while True:
+            try:
+                task = tasks.get(timeout=0.2)
+            except queue.Empty:
+                break
+            t0 = time.time()
+            if task[0] == 'runs':
+                buf += _run_chunk((task[1], task[2]))
+            elif task[0] == 'events':
+                buf += task[1]
+            elif task[0] == 'cli':
+                buf += c04.run_killable(_cli_task, (task[1],), limit, ['martinize2 ' + repr(task[1].get('requests'))])
+            sm.notes['seconds:' + task[0]] = round(sm.notes.get('seconds:' + task[0], 0) + time.time() - t0, 1)
+            if len(buf) >= 400:
+                t0 = time.time()
+                judge_into(buf, sm)
+                sm.notes['seconds:judge'] = round(sm.notes.get('seconds:judge', 0) + time.time() - t0, 1)
+                buf = []
+        if buf:
+            t0 = time.time()
+            judge_into(buf, sm)
+            sm.notes['seconds:judge'] = round(sm.notes.get('seconds:judge', 0) + time.time() - t0, 1)
+        results.put(('ok', wid, sm))
+    except tlc.MachineryError as exc:
+        results.put(('machinery', wid, str(exc)[-3000:]))
+    except Exception:      # noqa
+        import traceback
+        results.put(('machinery', wid, traceback.format_exc()[-3000:]))
+
+
+def run_tasks(tasks, limit):
+    import queue
+    import time
+    ctx = mp.get_context('fork')
+    tq, rq = ctx.Queue(), ctx.Queue()
+    for t in tasks:
+        tq.put(t)
+    n = min(tlc.NCPU, max(1, len(tasks)))
+    procs = [ctx.Process(target=_worker, args=(tq, rq, limit, i)) for i in range(n)]
+    for p in procs:
+        p.start()
+    total = c04.Summary()
+    got, dead_since = 0, None
+    while got < n:
+        try:
+            kind, wid, payload = rq.get(timeout=0.5)
+        except queue.Empty:
+            if all(not p.is_alive() for p in procs):
+                dead_since = dead_since or time.time()
+                if time.time() - dead_since > 5:
+                    raise tlc.MachineryError('%d of %d C19 workers ended without a result' % (n - got, n))
+            continue
+        got += 1
+        if kind != 'ok':
+            for p in procs:
+                p.is_alive() and p.kill()
+            raise tlc.MachineryError('C19 worker %s failed: %s' % (wid, payload))
+        total.merge(payload)
+    for p in procs:
+        p.join()
+    return total
+
+
+# ----------------------------------------------------------------------------------------------------------------------
+# command-line cases
+def cli_cases(tier, rng):
+    quick = tier == 'quick'
+    two = {'base': 'dipro+dipro/AB'}                                  # two identical chains: PRO 2, PRO 3 in both
+    mixed = {'base': 'dipro+trpcage/AB', 'waters': 2}                 # chains share residue numbers 2, 3; two water molecules (chain W)
+    icode = {'base': 'trpcage', 'icodes': [['A', 11, 10, 'A'], ['A', 18, 17, 'A'], ['A', 19, 17, 'B']]}      # GLY 10, GLY 10A; PRO 17, 17A, 17B
+    labels = {'base': 'dipro+trpcage+dipro/CAB'}                      # chain labels not in file order
+    insulin = {'base': '3i40'}                                        # two chains in ONE molecule (disulfide bridges), crystal waters, no hydrogens
+    villin = {'base': 'villin'}
+    damaged = {'base': 'dipro+trpcage/AB', 'damage': ['junk-h'], 'seed': 3}
+    cases = [
+        # every documented form of the specification
+        (mixed, [['-mutate', 'B-GLY10:ALA']], 'chain+name+number'),
+        (mixed, [['-mutate', 'GLY10:ALA']], 'name+number'),
+        (mixed, [['-mutate', 'A-PRO:ALA']], 'chain+name'),
+        (mixed, [['-mutate', 'PRO:GLY']], 'name only, several chains'),
+        (mixed, [['-mutate', '2:GLY']], 'number only, residues 2 of both chains'),
+        (mixed, [['-mutate', 'B-2:GLY']], 'chain+number'),
+        (two, [['-mutate', 'B-:GLY']], 'chain only'),
+        (two, [['-mutate', 'B-PRO2:ALA'], ['-modify', 'A-nter:NH2-ter']], 'same residue number in two chains'),
+        (mixed, [['-modify', 'nter:NH2-ter'], ['-modify', 'B-cter:COOH-ter']], 'termini through -modify'),
+        (mixed, [['-nter', 'NH2-ter']], '-nter'),
+        (mixed, [['-cter', 'COOH-ter'], ['-nter', 'none']], '-cter and none'),
+        (mixed, [], 'defaults only'),
+        (mixed, [['-modify', 'B-ASP9:ASP-HD2'], ['-modify', 'LYS:LYS-LSN']], '-modify on side chains'),
+        (mixed, [['-modify', 'W-:none']], 'chain-only request on water molecules'),
+        # several requests
+        (mixed, [['-mutate', 'B-GLY10:ALA'], ['-mutate', 'GLY10:ALA']], 'same residue, same target, twice'),
+        (icode, [['-mutate', 'A-GLY10:ALA'], ['-mutate', 'GLY:ALA']], 'overlapping; residues differing by insertion code'),
+        (icode, [['-mutate', 'GLY10:ALA'], ['-modify', 'PRO17:none']], 'insertion codes'),
+        (icode, [['-mutate', '17:GLY']], 'number only, three insertion codes'),
+        (mixed, [['-mutate', 'B-GLY10:ALA'], ['-mutate', 'GLY10:SER']], 'conflicting mutations'),
+        (two, [['-mutate', 'PRO2:ALA'], ['-mutate', 'A-PRO:GLY']], 'conflicting in one chain only'),
+        (mixed, [['-mutate', 'C-GLY10:ALA'], ['-mutate', 'B-GLY15:ALA']], 'one unmatched (no chain C)'),
+        (mixed, [['-mutate', 'B-ALA10:GLY'], ['-modify', 'B-TRP7:none'], ['-mutate', 'B-GLY15:ALA']], 'two unmatched'),
+        (mixed, [['-mutate', 'B-GLY10:XYZ']], 'unknown block on a matching request'),
+        (mixed, [['-modify', 'B-GLY10:NOSUCHMOD']], 'unknown modification on a matching request'),
+        (mixed, [['-mutate', 'C-GLY10:XYZ']], 'unknown block on an unmatched request'),
+        (mixed, [['-mutate', 'B-SER13:ALA']], '-nt', True),
+        (labels, [['-mutate', 'A-GLY:ALA'], ['-modify', 'C-nter:NH2-ter']], 'chain labels out of order'),
+        (insulin, [['-mutate', 'A-CYS:SER']], 'two chains in one molecule'),
+        (insulin, [['-mutate', 'B-GLY:ALA'], ['-nter', 'NH2-ter']], 'two chains in one molecule, -nter'),
+        (villin, [['-mutate', 'LEU:ILE'], ['-mutate', 'A-PHE:TYR']], 'heavy atoms only'),
+        (damaged, [['-mutate', 'B-GLY10:ALA'], ['-mutate', 'A-PRO2:ALA']], 'hydrogens with meaningless names'),
+    ]
+    if not quick:
+        more = []
+        names = ['GLY', 'ALA', 'SER', 'PRO']
+        for i in range(120):
+            base = rng.choice([mixed, two, icode, labels, villin, insulin, damaged])
+            chains = {'dipro+dipro/AB': 'AB', 'dipro+trpcage/AB': 'ABW', 'trpcage': 'A', 'dipro+trpcage+dipro/CAB': 'CAB', 'villin': 'A', '3i40': 'AB'}[base['base']]
+            reqs = []
+            for _ in range(rng.randint(1, 3)):
+                ch = rng.choice(['', '', rng.choice(chains) + '-', 'Z-'])
+                if rng.random() < 0.25:
+                    reqs.append(['-modify', '%s%s:%s' % (ch, rng.choice(['nter', 'cter']), rng.choice(['NH2-ter', 'COOH-ter', 'none', 'N-ter', 'C-ter']))])
+                    continue
+                nm = rng.choice(names + [''])
+                num = rng.choice(['', '', '2', '3', '10', '17', '44'])
+                if not nm and not num and not ch:
+                    nm = 'GLY'
+                target = rng.choice([n for n in ['GLY', 'ALA', 'SER'] if n != nm])
+                reqs.append(['-mutate', '%s%s%s:%s' % (ch, nm, num, target)])
+            if len({r[1].split(':')[0] for r in reqs if 'ter:' in r[1]}) < len([r for r in reqs if 'ter:' in r[1]]):
+                continue                                # the same terminus patched twice: reference atom names repeat (unspecified)
+            more.append((base, reqs, 'random %d' % i, rng.random() < 0.15))
+        cases += more
+    out = []
+    for c in cases:
+        out.append({'pdb': c[0], 'requests': c[1], 'label': c[2], 'nt': bool(c[3]) if len(c) > 3 else False})
+    return out
+
+
+# what the command-line family must have exercised at least once (letters of MutMod!NoteMarks, outcomes, repair effects)
+CLI_MUST = ['cli:m', 'cli:u', 'cli:e', 'cli:c', 'cli:i', 'cli:s', 'cli:t', 'cli:x', 'cli:d', 'cli-outcome:done', 'cli-outcome:annotate-error',
+            'cli-outcome:repair-error', 'itp:mutated-residues', 'repair:mutated', 'repair:removed', 'repair:readded', 'repair:modified',
+            'repair:mutated-twice-same-target']
+RUN_MUST = ['run:m', 'run:u', 'run:e', 'run:i', 'run:s', 'run:t', 'run:x', 'run:d']
+
+
+def _known_terminus(kind, sc):
+    """Known finding: a residue carrying a mutation AND a modification keeps its old residue name on the atoms matched to the
+    modification's own atoms."""
+    return (sc.get('kind') == 'repairx' and sc.get('verdict') == 'residue-not-renamed-to-the-requested-block'
+            and bool(sc.get('muts')) and any(m != 'none' for m in sc.get('mods', []))
+            and any(o['resname'] != sc['muts'][0] for o in sc.get('out', [])) and all(o['resname'] in (sc['muts'][0], sc['resname']) for o in sc.get('out', [])))
+
+
+SIGNATURES = {'C19-mutated-terminus-resname': _known_terminus}
 
 
 def run(tier, seed, ev, vd):
-    ev.rule = ('parse: every string <= 5 over {A,4,-,#}; runs: systems of 1-2 molecules built from 1-3 residues of a 7-residue pool '
-               '(path and star residue graphs) x ordered request lists of 1-2 from a 14-request pool. Non-trivial = run with >= 2 '
-               'residues and >= 1 request / string containing a separator; distinct by input.')
+    from . import c04_real
+    ev.rule = ('parse: every string <= 5 over {A,4,-,#}; library runs: systems of 1-2 molecules built from 1-3 residues of a 9-residue pool '
+               '(path and star residue graphs) x ordered request lists of 0-3 from a 22-request pool; command line: real bin/martinize2 runs '
+               'on 7 structures (two identical chains, chains sharing residue numbers + waters, insertion codes, chain labels out of '
+               'order, two chains in one molecule, heavy atoms only, meaningless hydrogen names) x request lists in every documented form. '
+               'Non-trivial = run with >= 2 residues and >= 1 request / string containing a separator / command-line run; distinct by input.')
     ev.assumptions = ['nter/cter combined with a residue number is not generated (silently dropped by the code; unspecified)',
-                      'a request with an unknown target is only generated when the test expects it to be judged by IsError '
-                      '(unknown target on an unmatched request: reported as unmatched, no error)',
-                      'the "after repair" clause is covered by C04 (Repair)']
+                      'a request with an unknown target that matches no residue is reported as unmatched and is no error',
+                      'how a report words an unmatched request is the documented form of its specification (an empty chain is not written)',
+                      'command line: mutation target "none", a modification that does not fit the residue, the same modification '
+                      'requested twice on one residue (reference atom names repeat) and specifications with more than one ":" are '
+                      'unspecified and not generated; a mutation of a large residue with hydrogens to a small one is not generated '
+                      '(the matcher needs minutes); runs run with -maxwarn so that files are written although requests were reported',
+                      'the written topology is judged at mutated positions by name and bead set, at other positions only when the '
+                      'target force field has a block of the residue name',
+                      'a run that fails after RepairGraph for another reason than the requests is counted as unjudged, never a violation']
     quick = tier == 'quick'
     rng = random.Random(seed)
     events = parse_events(tier)
     shapes = systems(tier, rng)
     cases = []
-    req_lists = [[r] for r in REQ_POOL] + [list(p) for p in itertools.permutations(REQ_POOL, 2)]
+    singles = [[r] for r in REQ_POOL]
+    pairs = [list(p) for p in itertools.permutations(REQ_POOL, 2)] + [[r, r] for r in REQ_POOL]
     nsys = 60 if quick else 600
     for k in range(nsys):
         mols = [shapes[(2 * k) % len(shapes)]]
         if k % 3 == 0:
             mols.append(shapes[(2 * k + 1) % len(shapes)])
-        for rl in rng.sample(req_lists, 12 if quick else 40):
+        for rl in rng.sample(singles, 3) + rng.sample(pairs, 7 if quick else 28) + [rng.sample(REQ_POOL, 3) for _ in range(2 if quick else 8)] + [[]]:
             cases.append((mols, rl))
-    with mp.Pool(tlc.NCPU) as pool:
-        parts = pool.map(_run_chunk, [(c, seed * 11 + i) for i, c in enumerate(common.chunks(cases, tlc.NCPU))])
-    events += [e for p in parts for e in p]
-    judge_events(events, ev, vd)
+    # families the random choice must not miss: a request hitting residues that differ only by insertion code / by chain
+    ic = {'res': [dict(POOL[i], chain=list(POOL[i]['chain']), resname=list(POOL[i]['resname'])) for i in (2, 3, 8)], 'edges': [[1, 2], [2, 3]]}
+    ch = {'res': [dict(POOL[i], chain=list(POOL[i]['chain']), resname=list(POOL[i]['resname'])) for i in (0, 4, 7)], 'edges': [[1, 2]]}
+    for rl in ([REQ_POOL[2]], [REQ_POOL[15]], [REQ_POOL[18], REQ_POOL[15]], [REQ_POOL[17]], [REQ_POOL[0], REQ_POOL[16]], [REQ_POOL[14], REQ_POOL[1]],
+               [REQ_POOL[20]], [REQ_POOL[21], REQ_POOL[8]]):
+        cases.append(([ic], rl))
+        cases.append(([ch], rl))
+        cases.append(([ic, ch], rl))
+    c04_real._load()                                     # force fields and bin/martinize2 once, before any fork
+    clis = cli_cases(tier, rng)
+    tasks = [('cli', c) for c in clis]
+    tasks += [('runs', chunk, seed * 11 + i) for i, chunk in enumerate(common.chunks(cases, 24 if quick else 64))]
+    tasks += [('events', chunk) for chunk in common.chunks(events, 4)]
+    sm = run_tasks(tasks, 150 if quick else 400)
+    if sm.harness_errors:
+        raise tlc.MachineryError('harness error in %d command-line cases, e.g. %s' % (len(sm.harness_errors), sm.harness_errors[0]))
+    ev.states += sm.states
+    ev.transitions += sm.transitions
+    ev.traces += sm.traces
+    ev.evaluations += sm.traces
+    ev.nontrivial |= sm.nontrivial
+    for kind, scenario, detail in sm.violations:
+        vd.violation(kind, scenario, detail)
+    missing = [k for k in CLI_MUST + RUN_MUST if not sm.notes.get(k)]
+    if missing and not sm.nviol:
+        raise tlc.MachineryError('vacuous: never exercised %s; seen %s; unjudged %s; inconclusive %s' % (missing, sm.notes, sm.unjudged, sm.inconclusive_examples))
     ev.exhaustive = False
-    ev.tlc_runs.append({'run': 'TRACE Trace_MutMod', 'events': len(events)})
-    e0 = next(e for e in events if e['kind'] == 'run' and len(e['reqs']) == 2 and not e['err'])
-    ev.sample({'kind': 'recorded AnnotateMutMod run judged by TLC', 'event': e0})
+    ev.extra['events_by_family'] = sm.fam
+    ev.extra['exercised'] = sm.notes
+    ev.extra['command_line_runs'] = len(clis)
+    ev.extra['unjudged'] = sm.unjudged
+    ev.extra['inconclusive'] = sm.inconclusive
+    ev.extra['inconclusive_examples'] = sm.inconclusive_examples
+    ev.tlc_runs.append({'run': 'TRACE Trace_MutMod + Trace_Repair', 'events': sm.events})
+    for s in sm.samples.values():
+        ev.sample(s)
 
 
 def replay(sc):
     if sc.get('kind') == 'run':
-        reqs = [(s, r['kind'], r['target'], r['known']) for s, r in zip(sc['specs'], sc['reqs'])]
+        reqs = [(''.join(r['spec']), r['kind'], ''.join(r['target']), r['known']) for r in sc['reqs']]
         print('now:', run_real(sc['system'], reqs, random.Random(0)))
         print('recorded:', sc['err'], sc['reported'], sc['mods'], sc['muts'])
+    elif sc.get('kind') in ('cli', 'itp', 'repairx', 'molecule', 'unknown'):
+        from . import c04_real
+        c04_real._load()
+        case = sc['info']['case']
+        events = c04.run_killable(_cli_task, (case,), 600, ['replay'])
+        sm = c04.Summary()
+        judge_into(events, sm)
+        print('martinize2', [e for e in events if e['kind'] == 'cli'][0]['argv'] if any(e['kind'] == 'cli' for e in events) else events)
+        for kind, scenario, detail in sm.violations:
+            print('now rejected:', detail)
+        if not sm.violations:
+            print('now accepted; exercised', sm.notes)
     else:
         from vermouth.processors.annotate_mut_mod import parse_residue_spec
         print(parse_residue_spec(''.join(sc['s'])))
@@ -259,20 +549,46 @@ def replay(sc):
 
 
 def selftest(seed):
-    rng = random.Random(seed)
-    m = {'res': [POOL[0], POOL[1], POOL[2]], 'edges': [[1, 2], [2, 3]]}
-    good = _run_chunk(([([m], [REQ_POOL[0], REQ_POOL[3]])], seed))[0]
     import copy
-    b1 = copy.deepcopy(good)
-    b1['muts'][0][1] = ['GLY']            # a residue the request does not name
-    b2 = copy.deepcopy(good)
-    b2['reported'] = [1]                  # matched request reported
-    ev = common.Evidence(PID, 'quick', seed)
-    vd = common.Verdicts(PID, ev)
-    judge_events([good, b1, b2], ev, vd)
-    assert len(vd.violations) == 2, vd.violations
-    print('selftest C19: tampered runs rejected:', [d.split(': ')[-1] for k, p, d in vd.violations])
     import os
-    for k, p, d in vd.violations:
-        os.path.exists(p) and os.remove(p)
+    from . import c04_real
+    m = {'res': [dict(POOL[i], chain=list(POOL[i]['chain']), resname=list(POOL[i]['resname'])) for i in (0, 1, 2)], 'edges': [[1, 2], [2, 3]]}
+    good = _run_chunk(([([m], [REQ_POOL[0], REQ_POOL[3], REQ_POOL[7]])], seed))[0]
+    tampered = []
+
+    def tamper(e, what, fn):
+        t = copy.deepcopy(e)
+        fn(t)
+        tampered.append((what, t))
+    tamper(good, 'a residue the request does not name is marked', lambda t: t['muts'][0].__setitem__(1, [list('GLY')]))
+    tamper(good, 'an unmatched request is not reported', lambda t: t.update(reported=[]))
+    tamper(good, 'a matched request is reported', lambda t: t['reported'].append([list('A-ALA1'), 'mutation', list('GLY')]))
+    tamper(good, 'the request text names another chain', lambda t: t['reqs'][1].update(spec=list('B-ALA1')))
+    # command line
+    c04_real._load()
+    case = {'pdb': {'base': 'dipro+trpcage/AB', 'icodes': [['B', 11, 10, 'A']]}, 'label': 'selftest', 'nt': False,
+            'requests': [['-mutate', 'B-GLY10:ALA'], ['-mutate', 'GLY10:ALA'], ['-modify', 'A-PRO2:none'], ['-mutate', 'C-ALA5:GLY']]}
+    events = c04.run_killable(_cli_task, (case,), 600, ['selftest'])
+    cli = next(e for e in events if e['kind'] == 'cli')
+    itp = next(e for e in events if e['kind'] == 'itp')
+    mutated = next(e for e in events if e['kind'] == 'repairx' and e['muts'])
+    kb, ki = next((k, i) for k, m in enumerate(cli['marksMut']) for i, r in enumerate(m) if r)
+    tamper(cli, 'command line: mark missing on one of two residues that differ by insertion code', lambda t: t['marksMut'][kb].__setitem__(ki, []))
+    tamper(cli, 'command line: only the last of two requests on one residue kept', lambda t: t['marksMut'][kb].__setitem__(ki, t['marksMut'][kb][ki][-1:]))
+    tamper(cli, 'command line: default terminus mark missing', lambda t: t['marksMod'][0].__setitem__(0, [list('none')]))
+    tamper(cli, 'command line: unmatched request not reported', lambda t: t.update(reported=[]))
+    tamper(cli, 'command line: run failed', lambda t: t.update(outcome='repair-error'))
+    tamper(itp, 'topology: mutated residue keeps the old name', lambda t: next(r for m, im in zip(t['mols'], t['itps']) for x, r in zip(m, im) if x['muts']).update(resname='GLY'))
+    tamper(itp, 'topology: mutated residue keeps the old beads', lambda t: next(r for m, im in zip(t['mols'], t['itps']) for x, r in zip(m, im) if x['muts']).update(beads=['BB']))
+    tamper(itp, 'topology: a residue lost', lambda t: t['itps'][1].pop())
+    tamper(mutated, 'after repair: side chain of the target missing', lambda t: t['out'].remove(next(o for o in t['out'] if o['name'] == 'CB')))
+    sm = c04.Summary()
+    judge_into([good] + events, sm)
+    assert not sm.violations and not sm.unjudged, (sm.violations, sm.unjudged)
+    assert all(sm.notes.get(k) for k in ('cli:m', 'cli:u', 'cli:i', 'cli:d', 'repair:mutated', 'itp:mutated-residues')), sm.notes
+    for what, t in tampered:
+        sm = c04.Summary()
+        judge_into([t], sm)
+        assert len(sm.violations) == 1, (what, sm.violations, sm.unjudged)
+        print('selftest C19: %-80s -> %s' % (what, sm.violations[0][2].split(': ')[-1]))
     return 0
